@@ -14,7 +14,7 @@ import (
 // C08 — nodes are content-addressed and deterministically encoded.
 
 var c08Weights = core.OpWeights{
-	core.OpInsert: 20, core.OpInsertNew: 25, core.OpUpdate: 8, core.OpInsertSame: 3, core.OpDelete: 28,
+	core.OpInsert: 20, core.OpInsertNew: 25, core.OpUpdate: 8, core.OpInsertSame: 3, core.OpDelete: 24, core.OpDeleteTop: 5,
 	core.OpClone: 4, core.OpPersistFail: 2, core.OpPersist: 12, core.OpReload: 6, core.OpReloadJSON: 2, core.OpDrain: 1,
 }
 
